@@ -10,8 +10,7 @@ open AGV.Lemmas.ParseC13 (typeDepth)
 -- ------------------------------------------------------------------ values as a reader
 
 def bValue (F : ValFam) : Bld PValue := fun s₀ ps v =>
-  ∃ pr, ps = [pr] ∧ pr.rule = F.vName ∧
-    (finV v = true → buildValue (envOf s₀) (fuelOf (envOf s₀)) pr = .ok (normV v))
+  ∃ pr, ps = [pr] ∧ pr.rule = F.vName ∧ buildValue (envOf s₀) (fuelOf (envOf s₀)) pr = expV v
 
 theorem strict_pV (c : Bool) : Strict (pV P' c) := fun _ _ _ h => pV_len P' c h
 
@@ -29,8 +28,8 @@ theorem reads_value (F : ValFam) (hF : IsFam F) (L : Nat) : Reads L (.ident F.vN
     obtain ⟨inner, hin⟩ := ev_ident_pair (fam_rules F hF).1 hE
     injection hin with hin
     subst hin
-    refine Out.mk_some hp rfl h1 h2 ⟨_, rfl, rfl, fun hf => ?_⟩
-    exact h4 hf _ (by simp [fuelOf, envOf, Pair.start]; omega)
+    refine Out.mk_some hp rfl h1 h2 ⟨_, rfl, rfl, ?_⟩
+    exact h4 _ (by simp [fuelOf, envOf, Pair.start]; omega)
 
 -- ------------------------------------------------------------------ pair-list helpers of the tree builder
 
@@ -86,7 +85,7 @@ def qDefault : Sim PValue := tMap (fun x => x.2) (tSeq (tPunct '=') (pV P' true)
 
 def bDefault : Bld PValue := fun s₀ ps v =>
   ∃ pr cv rest, ps = [pr] ∧ pr.rule = "default_value" ∧ pr.inner = cv :: rest ∧
-    (finV v = true → buildValue (envOf s₀) (fuelOf (envOf s₀)) cv = .ok (normV v))
+    buildValue (envOf s₀) (fuelOf (envOf s₀)) cv = expV v
 
 theorem reads_default (L : Nat) : Reads L (.ident "default_value") 63 qDefault bDefault := by
   refine Reads.map _ (Reads.rule default_ok (r := defaultRule)
@@ -122,8 +121,10 @@ def qVarDef (n : Nat) : Sim PVarDef := tMap mkVarDef (qVarDefRaw n)
 def finVD (v : PVarDef) : Bool := finDs v.dirs && (match v.default with | some d => finV d | none => true)
 def normVD (v : PVarDef) : PVarDef := ⟨v.name, v.ty, normDs v.dirs, v.default.map normV⟩
 
+def expVD (v : PVarDef) : Except PErr PVarDef := if finVD v then .ok (normVD v) else .error .number
+
 def bVarDef : Bld PVarDef := fun s₀ ps v =>
-  ∃ pr, ps = [pr] ∧ pr.rule = "variable_definition" ∧ (finVD v = true → buildVarDef (envOf s₀) pr = .ok (normVD v))
+  ∃ pr, ps = [pr] ∧ pr.rule = "variable_definition" ∧ buildVarDef (envOf s₀) pr = expVD v
 
 theorem tSeq_some {α β : Type} {qa : Sim α} {qb : Sim β} {ts r : List Tok} {x : α × β}
     (h : tSeq qa qb ts = some (x, r)) : ∃ r1, qa ts = some (x.1, r1) ∧ qb r1 = some (x.2, r) := by
@@ -221,10 +222,8 @@ theorem reads_vardef (L : Nat) : Reads L (.ident "variable_definition") 70 (qVar
     have d5 := hat.len
     simp only [fuelOf, envOf, List.size_toArray]
     omega
-  refine ⟨_, rfl, rfl, fun hf => ?_⟩
+  refine ⟨_, rfl, rfl, ?_⟩
   have hty := htb _ hdepth
-  simp only [finVD, mkVarDef, Bool.and_eq_true] at hf
-  obtain ⟨hf1, hf2⟩ := hf
   have hD1 : (envOf s₀).D.atomicTypeRule = false := rfl
   have hD2 : (envOf s₀).D.varDefDirectivesFirst = false := rfl
   cases odv with
@@ -236,52 +235,38 @@ theorem reads_vardef (L : Nat) : Reads L (.ident "variable_definition") 70 (qVar
       simp only [bOpt] at h8
       subst h8
       simp [buildVarDef, inner_mk, hvn, buildType, hD1, hD2, hty, nextIf_nil, optDirs_nil, bind, Except.bind,
-        pure, Except.pure, normVD, mkVarDef, normDs]
+        pure, Except.pure, normVD, mkVarDef, normDs, expVD, finVD, finDs]
     | some ds =>
       obtain ⟨dp, rfl, hdr, hdb⟩ := h8
       have hne : dp.rule ≠ "default_value" := by rw [hdr]; decide
-      have hdb' := hdb hf1
+      cases hf1 : finDs ds <;>
       simp [buildVarDef, inner_mk, hvn, buildType, hD1, hD2, hty, nextIf_miss hne,
-        optDirs_hit _ famC (Or.inr rfl) hdr, hdb', bind, Except.bind, pure, Except.pure, normVD, mkVarDef, Except.map]
+        optDirs_hit _ famC (Or.inr rfl) hdr, hdb, bind, Except.bind, pure, Except.pure, normVD, mkVarDef, Except.map,
+        expVD, finVD, expDs, hf1]
   | some dv =>
     obtain ⟨vp', cv, rest, rfl, hvr', hin, hvb⟩ := h7
-    have hvb' := hvb hf2
     cases ods with
     | none =>
       simp only [bOpt] at h8
       subst h8
-      simp [buildVarDef, inner_mk, hvn, buildType, hD1, hD2, hty, nextIf_hit hvr', hin, hvb', optDirs_nil, bind,
-        Except.bind, pure, Except.pure, normVD, mkVarDef, Except.map, normDs]
+      cases hf2 : finV dv <;>
+      simp [buildVarDef, inner_mk, hvn, buildType, hD1, hD2, hty, nextIf_hit hvr', hin, hvb, optDirs_nil, bind,
+        Except.bind, pure, Except.pure, normVD, mkVarDef, Except.map, normDs, expVD, finVD, finDs, expV, hf2]
     | some ds =>
       obtain ⟨dp, rfl, hdr, hdb⟩ := h8
-      have hdb' := hdb hf1
-      simp [buildVarDef, inner_mk, hvn, buildType, hD1, hD2, hty, nextIf_hit hvr', hin, hvb',
-        optDirs_hit _ famC (Or.inr rfl) hdr, hdb', bind, Except.bind, pure, Except.pure, normVD, mkVarDef, Except.map]
+      cases hf1 : finDs ds <;> cases hf2 : finV dv <;>
+      simp [buildVarDef, inner_mk, hvn, buildType, hD1, hD2, hty, nextIf_hit hvr', hin, hvb,
+        optDirs_hit _ famC (Or.inr rfl) hdr, hdb, bind, Except.bind, pure, Except.pure, normVD, mkVarDef, Except.map,
+        expVD, finVD, expDs, expV, hf1, hf2]
 
 -- ------------------------------------------------------------------ the list of variable definitions
-
-/-- the tree builder maps over the pairs of a repetition -/
-theorem bMany_mapM {α : Type} {F : List Char → Pair → Except PErr α} {R : Pair → Prop} {g : α → Bool} {nf : α → α}
-    {s₀ : List Char} {ps : List Pair} {xs : List α}
-    (h : bMany (fun s₀ ps x => ∃ pr, ps = [pr] ∧ R pr ∧ (g x = true → F s₀ pr = .ok (nf x))) s₀ ps xs)
-    (hg : xs.all g = true) : ps.mapM (F s₀) = .ok (xs.map nf) := by
-  obtain ⟨pss, rfl, hall⟩ := h
-  have h2 : All2 (fun pr x => g x = true → F s₀ pr = .ok (nf x)) pss.flatten xs := by
-    refine all2_single (R := fun s₀ pr x => g x = true → F s₀ pr = .ok (nf x)) ?_
-    clear hg
-    induction hall with
-    | nil => exact All2.nil
-    | cons h1 _ ih =>
-      obtain ⟨pr, rfl, -, hb⟩ := h1
-      exact All2.cons ⟨pr, rfl, hb⟩ ih
-  exact mapM_all2 h2 hg
 
 def qVarDefs (n : Nat) : Sim (List PVarDef) :=
   tMap (fun x => x.2.1) (tSeq (tPunct '(') (tSeq (tRep1 (qVarDef n)) (tPunct ')')))
 
 def bVarDefs : Bld (List PVarDef) := fun s₀ ps vds =>
   ∃ pr, ps = [pr] ∧ pr.rule = "variable_definitions" ∧
-    (vds.all finVD = true → pr.inner.mapM (buildVarDef (envOf s₀)) = .ok (vds.map normVD))
+    pr.inner.mapM (buildVarDef (envOf s₀)) = if vds.all finVD then .ok (vds.map normVD) else .error .number
 
 theorem reads_vardefs (L : Nat) : Reads L (.ident "variable_definitions") 80 (qVarDefs L) bVarDefs := by
   have hrep := Reads.rep1 (reads_vardef L) (strict_qVarDef L) (by omega)
@@ -293,9 +278,9 @@ theorem reads_vardefs (L : Nat) : Reads L (.ident "variable_definitions") 80 (qV
   rintro s₀ ps ⟨⟨⟩, vds, ⟨⟩⟩ ⟨p, p1, inner, rfl, ps1, ps2, rfl, h1, ps3, ps4, rfl, h3, h4⟩
   simp only [bNil] at h1 h4
   subst h1 h4
-  refine ⟨_, rfl, rfl, fun hf => ?_⟩
+  refine ⟨_, rfl, rfl, ?_⟩
   simp only [inner_mk, List.nil_append, List.append_nil]
-  exact bMany_mapM (F := fun s₀ => buildVarDef (envOf s₀)) h3 hf
+  exact mapM_expN (c := finVD) (nf := normVD) (bMany_all2 (Q := fun s₀ pr v => buildVarDef (envOf s₀) pr = expVD v) h3)
 
 theorem strict_qVarDefs (n : Nat) : Strict (qVarDefs n) :=
   strict_map (strict_seq (strict_punct '(') (mono_seq (strict_rep1 (strict_qVarDef n)).mono (strict_punct ')').mono))
